@@ -49,7 +49,7 @@ P = {
          "yaml.v3 and net/url are external (QueryUnescape transcribed)."),
  "C16": ("Theorems in Properties/C16.v about token positions; bounds of every error of every rejected document, exact positions of listener-raised errors, exact file/line/column of injected merge conflicts against the generator's bookkeeping.",
          "Partial: positions of ANTLR's own messages are assumed to be token starts/EOF. Known finding K-C16-lines."),
- "C17": ("Coq model of the plain graph (builder, Reversed, PathExists, DOT content; Model/PGraph.v) with theorems in Properties/C17.v; structure, single/double reversal, DOT text stability, path duality on all label pairs, look-up and cycle flags against the implementation.",
+ "C17": ("Coq model of the plain graph (builder, Reversed, PathExists, DOT content; Model/PGraph.v) with theorems in Properties/C17.v — among them THE STRUCTURE: for every model in a decidable domain (no relation declared twice, no name that reads as an operator node) the lines entering every relation node and every operator node, read as (source label, kind, tupleset label, conditions) in line order, are exactly what Spec/PGraphShape.pshape computes from the rewrite alone (Proofs/PBuilderShape.v); reversal and path theorems for all graphs; an oracle of the dictated structure that is independent of the Coq model; single/double reversal, DOT text stability, path duality on all label pairs, look-up and cycle flags against the implementation.",
          "gonum (IDs, DOT order, reachability, cycle enumeration) is external; cycle flags are checked by the oracle only."),
  "C18": ("Coq theorems (Properties/C18.v, no axioms): for every string each of the nine model validators equals a character-level specification; the validators are built by a regex parser + derivative matcher from the rule strings the translator re-extracts from validation-rules.go on every run; exhaustive differential run against the Go validators.",
          "Go's regexp (RE2 semantics of the subset used) is modelled; JS/Java compared as sources only."),
